@@ -156,6 +156,8 @@ def main():
     import hashlib
     muts.sort(key=lambda m: hashlib.md5(m['id'].encode()).hexdigest())     # fixed interleaving of files: partial results are representative
     muts = muts[offset::stride]
+    if '--reverse' in a:
+        muts.reverse()
     done = set()
     if os.path.exists(resfile):
         for l in open(resfile):
@@ -185,6 +187,8 @@ def main():
                 m = q.get_nowait()
             except queue.Empty:
                 return
+            if '--ids' not in a and any(('"id": "%s"' % m['id']) in l for l in open(resfile)):
+                continue        # finished meanwhile by another campaign process working on the same list
             try:
                 r = run_one(k, W, m, None)
             except Exception as e:      # noqa
